@@ -139,6 +139,10 @@ pub trait NumEnv {
     fn constant(&self, _path: &str) -> Option<String> {
         None
     }
+    /// consulted first on every sub-expression (memory reads, sibling calls, ... of the richer targets)
+    fn special(&self, _e: &Expr) -> Option<Res<String>> {
+        None
+    }
 }
 
 /// Rust usize/u32/u64 arithmetic -> Gallina N.  Fails closed on everything outside the subset.
@@ -146,6 +150,9 @@ pub trait NumEnv {
 /// array length, so no modelled offset computation can have overflowed); subtraction is wrapping.
 pub fn num(e: &Expr, env: &dyn NumEnv) -> Res<String> {
     let e = strip_parens(e);
+    if let Some(r) = env.special(e) {
+        return r;
+    }
     match e {
         Expr::Lit(_) => match lit_int(e) {
             Some(v) => Ok(format!("{}", v)),
